@@ -169,6 +169,55 @@ func (g *G) str(inKey bool) string {
 	}
 }
 
+// blockBody: a multi-line body for block strings / block comments: lines sharing a common indent of n columns
+// (spaces, tabs or a mix), with whitespace-only lines shorter than, equal to and longer than that indent, made
+// of spaces, tabs, NBSP or a lone CR (the blank line of a CRLF file).
+func (g *G) blockBody() string {
+	r := g.R
+	n := 1 + r.Intn(6)
+	indent := strings.Repeat(" ", n)
+	switch r.Intn(5) {
+	case 0:
+		indent = strings.Repeat("\t", 1+r.Intn(2))
+	case 1:
+		indent = " \t"[:1+r.Intn(2)] + strings.Repeat(" ", r.Intn(3))
+	}
+	eol := "\n"
+	if r.Intn(4) == 0 {
+		eol = "\r\n"
+	}
+	var sb strings.Builder
+	sb.WriteString(eol)
+	lines := 2 + r.Intn(4)
+	for i := 0; i < lines; i++ {
+		switch r.Intn(7) {
+		case 0: // whitespace-only, shorter than the indent
+			k := 0
+			if len(indent) > 1 {
+				k = 1 + r.Intn(len(indent)-1)
+			}
+			sb.WriteString(strings.Repeat(" ", k))
+			g.Count("block:blank-shorter")
+		case 1: // whitespace-only, exactly the indent
+			sb.WriteString(indent)
+			g.Count("block:blank-equal")
+		case 2: // whitespace-only, longer
+			sb.WriteString(indent + g.pick([]string{" ", "  ", "\t", " \t ", "\u00a0"}))
+			g.Count("block:blank-longer")
+		case 3: // empty (or a lone CR with CRLF endings)
+			g.Count("block:blank-empty")
+		default:
+			extra := g.pick([]string{"", "", "  ", "\t", "\u00a0"})
+			sb.WriteString(indent + extra + g.pick([]string{"a", "text here", "# t", "code {", "}", "x | y", "é😀"}))
+		}
+		sb.WriteString(eol)
+	}
+	if r.Intn(2) == 0 {
+		sb.WriteString(g.pick([]string{"", " ", "  ", indent}))
+	}
+	return sb.String()
+}
+
 func closeOf(q string) string {
 	if q == "" {
 		return "|"
@@ -260,6 +309,9 @@ func (g *G) stmt() string {
 	case 0:
 		return "# " + g.unquoted()
 	case 1:
+		if g.R.Intn(2) == 0 {
+			return "\"\"\"" + g.blockBody() + "\"\"\""
+		}
 		return "\"\"\"" + g.pick([]string{" bc ", "\n  multi\n  line\n", "x\"y", "\"\""}) + "\"\"\""
 	case 2:
 		return "...${" + g.keyPath() + "}"
@@ -464,6 +516,9 @@ func (g *G) Raw() []byte {
 		}
 		g.Count("raw:control")
 		return b
+	case 8: // a program with CRLF line endings
+		g.Count("raw:crlf")
+		return []byte(strings.ReplaceAll(g.Program(), "\n", "\r\n"))
 	default: // a mutated program
 		g.Count("raw:mutated-program")
 		return []byte(g.Mutate(g.Program()))
